@@ -197,6 +197,8 @@ func init() {
 		Streams: []core.Stream{{Name: "changelog", Gen: streamChangelog,
 			Domain: "entry-list models (1-4 entries, 1-3 distributions, 1-3 options, body shapes incl. empty lines and lines containing ' -- ', blank-line runs between entries, trailing blank lines or none) rendered in dpkg format; truncation points of each rendering (every one in thorough, ~40 per changelog in quick); single-byte edits of header/trailer/date characters; model (with the real time.Parse verdict on the date texts the model extracts) vs changelog.Parse: per entry source, version, target, options, verbatim body, maintainer, instant and zone offset; law-cltrunc: a text ending inside an entry gives an error, otherwise exactly the entries it holds"}},
 		Impl: changelogImpl, TrustedBase: tb,
-		Readable: func(op string, a []string) string { return fmt.Sprintf("%s(%q) %v", op, core.MustUnHex(a[0]), a[1:min(len(a), 3)]) },
+		Readable: func(op string, a []string) string {
+			return fmt.Sprintf("%s(%q) %v", op, core.MustUnHex(a[0]), a[1:min(len(a), 3)])
+		},
 	})
 }
